@@ -10,6 +10,7 @@ mod alphabet;
 mod builder;
 mod engine;
 mod fx;
+mod gen;
 mod props;
 mod refcbor;
 mod report;
